@@ -186,7 +186,7 @@ pub fn run_live(is_sync: bool, tokens: &[&str]) -> String {
     let mut rx_seen = 0usize;
     let mut take_rx = |log: &Arc<Mutex<Vec<Vec<u8>>>>| -> String {
         // the peer logs a frame 40 ms after its last byte; give it time
-        let deadline = Instant::now() + Duration::from_millis(400);
+        let deadline = Instant::now() + Duration::from_millis(3000);
         loop {
             {
                 let l = log.lock().unwrap();
